@@ -107,6 +107,12 @@ func tuneForProperty(c *Config, prop string, r *core.Rand) {
 	case "C24":
 		c.NodeUnstakingSecs = int64([]int{1, 900, 3600}[r.Intn(3)])
 		c.AppUnstakingSecs = int64([]int{1, 900, 3600}[r.Intn(3)])
+		if r.Chance(0.5) {
+			// nodes that stay jailed are force-unstaked early in the run, released, paid out and
+			// deleted, so that the same keys can stake again while the run lasts
+			c.MaxJailedBlocks = int64(r.Range(2, 5))
+			c.DowntimeJailSecs = 60
+		}
 	case "C25":
 		c.DowntimeJailSecs = int64([]int{60, 1800}[r.Intn(2)])
 		c.MaxJailedBlocks = int64(r.Range(3, 10))
@@ -279,6 +285,12 @@ func (g *generator) genClaims() *Step {
 		st.Action = "forge:" + proofMutations[r.Intn(len(proofMutations)-1)]
 	case x < g.prof.forge:
 		st.Action = "dup-evidence"
+	case x < g.prof.forge+0.12 && g.s.prop == "C31":
+		st.Action = "early-proof"
+	case x < g.prof.forge+0.1 && g.s.prop == "C43":
+		// a second claim for the same session under the other evidence type: the export has to
+		// carry both
+		st.Action = "mistype"
 	case x < g.prof.forge+0.1 && g.s.prop == "C32":
 		st.Action = []string{"outsider-claim", "mistype", "mistype", "shift-height"}[r.Intn(4)]
 	case x < g.prof.forge+0.1:
